@@ -319,7 +319,7 @@ def rule_n1(ctx, prog, rid, fns, control=False):
                     # a redefinition between d and u makes this use belong to another definition
                     redef = [x for x in f.events() if x is not d and x['k'] in ('decl', 'asg') and
                              ((x['k'] == 'decl' and x['n'] == v) or (x['k'] == 'asg' and is_var(v)(x['l']))) and
-                             f.ev_reaches(d, x) and f.dominates_ev(x, u)]
+                             f.dominates_ev(d, x) and f.dominates_ev(x, u)]
                     if redef:
                         continue
                 if control:
